@@ -678,6 +678,36 @@ func c09Preproc(c *Ctx) {
 		}
 	}
 	skip := bodyCanSkip(*loop, nil, allowed)
+	if skip {
+		// per path (the verdict on a line may be carried in a flag that is branched on later): every way back to the
+		// loop head took the ignored-line outcome, or the NoRnetOutput outcome after a decode whose error was nil
+		if paths, ok := loopIterationPaths(loop.Header, loop.Entry, loop.Body, nil, 128); ok {
+			skip = false
+			for _, fs := range paths {
+				ignored, noOut, decoded := false, false, false
+				for _, f := range fs {
+					if call, isCall := f.V.(*ssa.Call); isCall && f.Truth {
+						if g := calleeOf(call.Common()); g != nil && g.Name() == "isIgnored" {
+							ignored = true
+						}
+					}
+					if f.Truth && isFieldLoad(f.V, fNoOut) {
+						noOut = true
+					}
+					if x, trueNil, isNil := nilTest(f.V); isNil && trueNil == f.Truth {
+						for _, d := range decodes {
+							if cl, idx := callOfValue(x); cl == d && idx == 1 {
+								decoded = true
+							}
+						}
+					}
+				}
+				if !(ignored || (noOut && decoded)) {
+					skip = true
+				}
+			}
+		}
+	}
 	c.Check(rule, fnName(fn)+"|line-dropped-only-as-ignored-or-accounted-subnet", !skip, fn.Pos(), "every other line is emitted or makes the preprocessor fail")
 	// errors stored
 	fErr := c.Field("dnsdata", "PreprocReader", "err")
@@ -708,7 +738,20 @@ func c09Preproc(c *Ctx) {
 			continue
 		}
 		nst++
-		for s := range sourcesOf(st.Val) {
+		// the value on each way into the store (a result variable assigned per case and stored once)
+		vals := map[ssa.Value]bool{}
+		for _, p := range nearPaths(st, 64) {
+			for s := range sourcesOf(p.value(st.Val)) {
+				vals[s] = true
+			}
+		}
+		if len(vals) == 0 {
+			vals = sourcesOf(st.Val)
+		}
+		if len(vals) > 1 {
+			nst++ // one store fed by several cases counts for as many
+		}
+		for s := range vals {
 			cv, isCv := s.(*ssa.Convert)
 			if !isCv {
 				okEmit = false
